@@ -446,3 +446,103 @@ def join_sql(M: Model, op: str, operands: List[Tuple[str, MDS, Optional[str]]], 
     except Raised as r:
         return "raise", getattr(r.exc, "code", None) or getattr(r.exc, "kind", None)
     return "ok", res
+
+
+# ---------------------------------------------------------------------------------------------------------------
+# aggregation, membership, check: interpreter validator vs StructureVisitor builder (and SQL SELECT list where evaluable)
+def _copy(x: Any) -> Any:
+    return MComp(x.name, x.role, x.data_type, x.nullable) if isinstance(x, MComp) else x
+
+
+def _component(**kw: Any) -> MComp:
+    return MComp(kw["name"], kw["role"], kw.get("data_type"), kw.get("nullable", True))
+
+
+def agg_interpreter(M: Model, cls: str, ds: MDS, gop: Optional[str], gcols: Optional[List[str]]) -> Tuple[str, Any]:
+    f = M.P.func("vtlengine.Operators.Aggregation.Aggregation.validate")
+    ext: Dict[str, Callable[..., Any]] = {"Dataset": M.mk_dataset, "isinstance": _isinstance, "Component": _component, "copy": _copy,
+                                          "unary_implicit_promotion": lambda a, b=None, c=None: a}
+    it = Interp(M.P, externals=ext, max_steps=400000)
+    try:
+        r = it.call(f, {"operand": ds, "group_op": gop, "grouping_columns": gcols}, bound_cls=ClassVal(f"vtlengine.Operators.Aggregation.{cls}"))
+    except Raised as e:
+        return "raise", getattr(e.exc, "code", None)
+    return "ok", r
+
+
+def agg_visitor(M: Model, op: str, ds: MDS, gop: Optional[str], gcols: Optional[List[str]]) -> Tuple[str, Any]:
+    f = M.P.func(f"{SV}._build_aggregation_structure")
+    node = MNode("Aggregation", op=op, operand="SRC", grouping_op=gop, grouping=[MNode("VarID", value=g) for g in gcols] if gcols is not None else None, having_clause=None)
+    ext: Dict[str, Callable[..., Any]] = {"self._get_dataset_structure": lambda x: ds, "Dataset": M.mk_dataset, "isinstance": _isinstance, "self._resolve_udo_name": lambda x: x,
+                                          "self._make_comp": lambda name, dt=None, role=None, nullable=True, **kw: MComp(name, role if role is not None else M.roles["MEASURE"], dt, nullable)}
+    it = Interp(M.P, externals=ext, max_steps=400000)
+    try:
+        r = it.call(f, {"self": MSelf(), "node": node})
+    except Raised as e:
+        return "raise", getattr(e.exc, "code", None)
+    return "ok", r
+
+
+def membership_interpreter(M: Model, ds: MDS, comp: str) -> Tuple[str, Any]:
+    f = M.P.func("vtlengine.Operators.General.Membership.validate")
+    ext: Dict[str, Callable[..., Any]] = {"VirtualCounter._new_ds_name": lambda: "__VDS__", "Dataset": M.mk_dataset, "Component": _component, "isinstance": _isinstance,
+                                          "Scalar": lambda **kw: ("scalar", kw.get("data_type"))}
+    it = Interp(M.P, externals=ext)
+    try:
+        r = it.call(f, {"left_operand": ds, "right_operand": comp}, bound_cls=ClassVal("vtlengine.Operators.General.Membership"))
+    except Raised as e:
+        return "raise", getattr(e.exc, "code", None)
+    return "ok", r
+
+
+def membership_visitor(M: Model, ds: MDS, comp: str) -> Tuple[str, Any]:
+    f = M.P.func(f"{SV}._build_membership_structure")
+    node = MNode("BinOp", left="SRC", op="#", right=MNode("Identifier", value=comp))
+    ext: Dict[str, Callable[..., Any]] = {"self._get_dataset_structure": lambda x: ds, "Dataset": M.mk_dataset, "isinstance": _isinstance, "self._resolve_udo_name": lambda x: x,
+                                          "self._resolve_name": lambda x: getattr(x, "value", x),
+                                          "self._make_comp": lambda name, dt=None, role=None, nullable=True, **kw: MComp(name, role if role is not None else M.roles["MEASURE"], dt, nullable)}
+    it = Interp(M.P, externals=ext)
+    try:
+        r = it.call(f, {"self": MSelf(), "node": node})
+    except Raised as e:
+        return "raise", getattr(e.exc, "code", None)
+    return "ok", r
+
+
+def membership_sql(M: Model, ds: MDS, comp: str) -> Tuple[str, Any]:
+    f = M.P.func(f"{TRQ}._visit_binop_membership")
+    node = MNode("BinOp", left=MNode("VarID", value="SRC"), op="#", right=MNode("Identifier", value=comp))
+    ext: Dict[str, Callable[..., Any]] = {"self._get_dataset_structure": lambda x: ds, "self._get_dataset_sql": lambda x: '"SRC"', "self._resolve_udo_name": lambda x: x,
+                                          "self._get_node_value": lambda x: getattr(x, "value", x), "quote_name": lambda n: f'"{n}"', "SQLBuilder": MBuilder, "isinstance": _isinstance}
+    it = Interp(M.P, externals=ext)
+    try:
+        r = it.call(f, {"self": MTranspiler(), "node": node})
+    except Raised as e:
+        return "raise", getattr(e.exc, "code", None)
+    return "ok", r
+
+
+def check_interpreter(M: Model, ds: MDS, imbalance: Optional[MDS] = None) -> Tuple[str, Any]:
+    f = M.P.func("vtlengine.Operators.Validation.Check.validate")
+    ext: Dict[str, Callable[..., Any]] = {"VirtualCounter._new_ds_name": lambda: "__VDS__", "Dataset": M.mk_dataset, "Component": _component, "isinstance": _isinstance, "copy": _copy}
+    it = Interp(M.P, externals=ext)
+    try:
+        r = it.call(f, {"validation_element": ds, "imbalance_element": imbalance, "error_code": None, "error_level": None, "invalid": False},
+                    bound_cls=ClassVal("vtlengine.Operators.Validation.Check"))
+    except Raised as e:
+        return "raise", getattr(e.exc, "code", None)
+    return "ok", r
+
+
+def check_visitor(M: Model, ds: MDS) -> Tuple[str, Any]:
+    f = M.P.func(f"{SV}._build_validation_structure")
+    node = MNode("Validation", op="check", validation="SRC", error_code=None, error_level=None, imbalance=None, invalid=False)
+    me = MSelf()
+    ext: Dict[str, Callable[..., Any]] = {"self._get_dataset_structure": lambda x: ds, "Dataset": M.mk_dataset, "isinstance": _isinstance,
+                                          "self._make_comp": lambda name, dt=None, role=None, nullable=True, **kw: MComp(name, role if role is not None else M.roles["MEASURE"], dt, nullable)}
+    it = Interp(M.P, externals=ext)
+    try:
+        r = it.call(f, {"self": me, "node": node})
+    except Raised as e:
+        return "raise", getattr(e.exc, "code", None)
+    return "ok", r
